@@ -62,6 +62,11 @@ structure Cfg where
   tcIdCheck : Bool
   tcTypeCheck : Bool
   tcNameCheck : Bool
+  /-- the final sort of `concatToolCalls` (calls without an index first, the others by index)
+      is a *stable* sort (`sort.SliceStable`).  Calls without an index all compare equal, so
+      their arrival order survives only because of stability.  `false` = `sort.Slice`, which
+      is an insertion sort (stable) up to 12 elements and makes no promise above. -/
+  tcSortStable : Bool
   deriving Repr
 
 def Cfg.rule (cfg : Cfg) (ty : String) : Rule :=
@@ -267,6 +272,71 @@ def TCState.out (s : TCState) : List TC := s.nils ++ s.groups.map (·.2)
 def concatTC (cfg : Cfg) (cs : List TC) : Except Err (List TC) := do
   let s ← cs.foldlM (stepTC cfg) ⟨[], []⟩
   pure s.out
+
+/-! ### the code-level shape of `concatToolCalls`: gather, merge per index, **sort**
+
+  `concatTC` above is the specification-level function (groups are kept ascending while
+  they are built).  The Go function does something else: it appends the calls without an
+  index to `merged` in arrival order, then appends one merged call per index **in the
+  iteration order of a Go map** (arbitrary, different from run to run), and finally sorts
+  `merged` with the comparator `tcLess`.  `concatTCGo` is that shape; the map's iteration
+  order is the parameter `ord` (any permutation of the groups), the sort is `finalSort`.
+  `toolcalls_any_map_order` (Props/C14.lean) proves `concatTCGo = concatTC` for every `ord`
+  and lists of every length when the sort is stable. -/
+
+/-- the comparator of the final sort: a call without an index is less than every call with
+    one, two indexed calls compare by index, two calls without an index are not ordered -/
+def tcLess (a b : TC) : Bool :=
+  match a.index, b.index with
+  | none, some _ => true
+  | some i, some j => decide (i < j)
+  | _, none => false
+
+/-- one step of the stable insertion sort: `x` arrived before everything in the (sorted)
+    tail and goes in front of the first element that is not less than it -/
+def insStable (x : TC) : List TC → List TC
+  | [] => [x]
+  | y :: ys => if tcLess y x then y :: insStable x ys else x :: y :: ys
+
+/-- `sort.SliceStable(merged, tcLess)`: elements that compare equal keep their order -/
+def sortStable (xs : List TC) : List TC := xs.foldr insStable []
+
+/-- position of the first greatest element of `x :: xs` (`0` = `x`) -/
+def maxPos : TC → List TC → Nat × TC
+  | x, [] => (0, x)
+  | x, y :: ys =>
+    let (i, m) := maxPos y ys
+    if tcLess x m then (i + 1, m) else (0, x)
+
+/-- a sort that is *not* stable (the representative the model uses for `sort.Slice` above
+    12 elements; Go's pdqsort itself is not modelled — any algorithm that only promises a
+    sorted permutation would do): selection sort that swaps the first greatest element of
+    the unsorted part with its last element. -/
+def sortBySwaps : Nat → List TC → List TC
+  | 0, xs => xs
+  | _ + 1, [] => []
+  | fuel + 1, x :: rest =>
+    let (i, m) := maxPos x rest
+    -- the last element goes where the greatest one was (`set` beyond the end: no change,
+    -- the greatest element already is the last one), the greatest element to the end
+    let init := (x :: rest).dropLast
+    let last := (x :: rest).getLastD x
+    sortBySwaps fuel (init.set i last) ++ [m]
+
+/-- `sort.Slice(merged, tcLess)`: insertion sort up to 12 elements (package sort), no
+    stability above -/
+def sortSlice (xs : List TC) : List TC :=
+  if xs.length ≤ 12 then sortStable xs else sortBySwaps xs.length xs
+
+def finalSort (cfg : Cfg) (xs : List TC) : List TC :=
+  if cfg.tcSortStable then sortStable xs else sortSlice xs
+
+/-- schema/message.go `concatToolCalls` as written: `merged` = the calls without an index in
+    arrival order, then one merged call per index in the map's iteration order `ord`, then
+    the final sort. -/
+def concatTCGo (cfg : Cfg) (ord : List (Int × TC) → List (Int × TC)) (cs : List TC) : Except Err (List TC) := do
+  let s ← cs.foldlM (stepTC cfg) ⟨[], []⟩
+  pure (finalSort cfg (s.nils ++ (ord s.groups).map (·.2)))
 
 /-! ## messages -/
 
